@@ -317,10 +317,17 @@ def str_index(interp, s, idx, path):
     z = to_zstr(s)
     n = z3.Length(z)
     i = idx if is_z3(idx) else z3.IntVal(idx)
-    ok = z3.And(i < n, i >= -n)
+    if isinstance(idx, int) and idx >= 0:
+        ok = n > idx
+        pos = z3.IntVal(idx)
+    elif isinstance(idx, int):
+        ok = n >= -idx
+        pos = n + idx
+    else:
+        ok = z3.And(i < n, i >= -n)
+        pos = z3.If(i >= 0, i, n + i)
     if not path.branch(ok):
         interp.raise_builtin('IndexError', 'string index out of range')
-    pos = z3.If(i >= 0, i, n + i)
     return mkstr([z3.SubString(z, pos, 1)])
 
 
@@ -461,6 +468,9 @@ def do_slice(interp, obj, lo, hi, st, path):
             return mkstr([obj.parts[0][lo:]] + list(obj.parts[1:]))
         z = to_zstr(obj)
         n = z3.Length(z)
+        if isinstance(lo, int) and lo >= 0 and hi is None:
+            # s[k:] == substr(s, k, len - k)  (z3's substr yields '' when k > len, like Python)
+            return mkstr([z3.SubString(z, z3.IntVal(lo), n - lo)])
         a = _norm_bound(lo, n, 0)
         b = _norm_bound(hi, n, n)
         return mkstr([z3.SubString(z, a, z3.If(b - a > 0, b - a, z3.IntVal(0)))])
@@ -535,13 +545,15 @@ def _norm_bound(x, n, default):
 def do_setitem(interp, obj, key, v, path):
     if isinstance(obj, DictV):
         interp.journal_write(path, obj, ('setitem', key))
-        if obj.dom is None and isinstance(key, (str, int)) and not isinstance(key, bool):
+        if obj.dom is None and isinstance(key, (str, int, StrT)) and not isinstance(key, bool):
+            # finite dict: (possibly symbolic) keys are kept as they are; equal keys are merged
+            for k in list(obj.concrete.keys()):
+                r = interp.eq(k, key, path)
+                if r is True or (r is not False and path.branch(r)):
+                    obj.concrete[k] = v
+                    return
             obj.concrete[key] = v
             return
-        if obj.dom is None and not obj.concrete and isinstance(key, StrT):
-            _dict_make_symbolic(interp, obj, v)
-        if obj.dom is None and isinstance(key, (str, StrT)):
-            _dict_make_symbolic(interp, obj, v)
         if obj.dom is not None and isinstance(key, (str, StrT)):
             zk = to_zstr(key)
             zv = interp.to_z3(v)
@@ -761,6 +773,10 @@ def _sorted(interp, path, args, kw):
     v = args[0]
     if kw:
         raise Unsupported('sorted with key/reverse')
+    if isinstance(v, SetV) and v.sym is None and interp.set_has_symbolic(v):
+        if len(v.concrete) <= 1:
+            return SeqV(SeqT([LitB(list(v.concrete))]) if v.concrete else SeqT())
+        v = SetV(sym=interp.set_z3(v))
     if isinstance(v, SetV) and v.sym is not None:
         f = uf(interp, 'py.sorted_strset', z3.SetSort(z3.StringSort()), z3.SeqSort(z3.StringSort()))
         from .sorts import TypeDesc
@@ -1052,6 +1068,15 @@ def _s_split(interp, path, args, kw):
     return SeqV(interp.seq_of_base(base, TypeDesc('str'), path))
 
 
+def split_lines_syntactic(interp, path, s):
+    """SeqT of the lines of a string whose symbolic parts are all free of line boundaries, else None"""
+    if isinstance(s, str):
+        items = s.splitlines()
+        return SeqT([LitB(items)]) if items else SeqT()
+    r = _split_core(interp, path, s)
+    return r
+
+
 def _s_splitlines(interp, path, args, kw):
     s = args[0]
     if len(args) > 1 or kw:
@@ -1059,6 +1084,29 @@ def _s_splitlines(interp, path, args, kw):
     if isinstance(s, str):
         items = s.splitlines()
         return SeqV(SeqT([LitB(items)]) if items else SeqT())
+    r = _split_core(interp, path, s)
+    if r is not None:
+        return SeqV(r)
+    f = uf(interp, 'py.splitlines', z3.StringSort(), z3.SeqSort(z3.StringSort()))
+    from .sorts import TypeDesc
+    z = to_zstr(s)
+    base = f(z)
+    reg = path.__dict__.setdefault('_splitlines_terms', set())
+    if base.get_id() not in reg:
+        reg.add(base.get_id())
+        # facts about str.splitlines() (CPython): a string has no lines iff it is empty; no line contains a line
+        # boundary (instantiable hypothesis)
+        path.define((z3.Length(base) == 0) == (z3.Length(z) == 0))
+        q = z3.Int(fresh_name('q'))
+        path.add_hyp([q], z3.Implies(z3.And(q >= 0, q < z3.Length(base)), ops.with_facts(ops.no_break(base[q]))),
+                     'splitlines-lines-break-free')
+    hook = getattr(interp, 'splitlines_axioms', None)
+    if hook:
+        hook(interp, path, z, base)
+    return SeqV(interp.seq_of_base(base, TypeDesc('str'), path))
+
+
+def _split_core(interp, path, s):
     # syntactic split when every symbolic part is provably free of line boundaries
     segs = [[]]
     ok = True
@@ -1097,18 +1145,11 @@ def _s_splitlines(interp, path, args, kw):
             blocks.append(LitB([last]))
         elif ne is not False:
             blocks.append(GuardB(ne, SeqT([LitB([last])])))
-        return SeqV(mkseq(blocks))
-    f = uf(interp, 'py.splitlines', z3.StringSort(), z3.SeqSort(z3.StringSort()))
-    from .sorts import TypeDesc
-    z = to_zstr(s)
-    base = f(z)
-    hook = getattr(interp, 'splitlines_axioms', None)
-    if hook:
-        hook(interp, path, z, base)
-    return SeqV(interp.seq_of_base(base, TypeDesc('str'), path))
+        return mkseq(blocks)
+    return None
 
 
-def _syntactic_break_free(e, depth=0):
+def _syntactic_break_free(e, declared=(), depth=0):
     """Assumption MV-1 (model validity): no string stored in a model object contains a line boundary.  Under it
     a string term is break-free when it is built from model fields by operations that cannot introduce one."""
     if depth > 12:
@@ -1121,19 +1162,21 @@ def _syntactic_break_free(e, depth=0):
     if k == z3.Z3_OP_DT_ACCESSOR:
         return True
     if k == z3.Z3_OP_ITE:
-        return _syntactic_break_free(e.arg(1), depth + 1) and _syntactic_break_free(e.arg(2), depth + 1)
+        return _syntactic_break_free(e.arg(1), declared, depth + 1) and \
+            _syntactic_break_free(e.arg(2), declared, depth + 1)
     if k == z3.Z3_OP_SEQ_CONCAT:
-        return all(_syntactic_break_free(c, depth + 1) for c in e.children())
+        return all(_syntactic_break_free(c, declared, depth + 1) for c in e.children())
     if k in (z3.Z3_OP_SEQ_EXTRACT, z3.Z3_OP_SEQ_AT):
-        return _syntactic_break_free(e.arg(0), depth + 1)
+        return _syntactic_break_free(e.arg(0), declared, depth + 1)
     if k == z3.Z3_OP_UNINTERPRETED:
         name = e.decl().name()
-        if name in ('py.upper', 'py.lower', 'py.strip', 'py.lstrip', 'py.rstrip') and e.num_args() == 1:
-            return _syntactic_break_free(e.arg(0), depth + 1)
+        if name in ('py.upper', 'py.lower', 'py.strip', 'py.lstrip', 'py.rstrip', 'os.path.basename',
+                    'os.path.splitext.root', 'os.path.splitext.ext') and e.num_args() == 1:
+            return _syntactic_break_free(e.arg(0), declared, depth + 1)
         if name.startswith('py.repeat['):
             ch = name[len('py.repeat['):-1]
             return ch not in ("'\\n'", "'\\r'")
-        if name.startswith('in_') and e.num_args() == 0 and getattr(_syntactic_break_free, 'inputs_ok', False):
+        if e.num_args() == 0 and e.get_id() in declared:
             return True
     return False
 
@@ -1187,6 +1230,9 @@ def str_break_free(interp, v, path):
         elif isinstance(p, JoinT):
             if not part_break_free(interp, path, p):
                 return False
+        elif getattr(interp, 'model_strings_break_free', False) and \
+                _syntactic_break_free(p, interp.break_free_syms):
+            continue
         else:
             res = interp.and_(res, ops.no_break(p, path))
     return res
@@ -1200,7 +1246,7 @@ def part_break_free(interp, path, p):
             cache[key] = str_break_free(interp, p.sep, path) is True and \
                 forall_items(interp, path, p.seq, lambda it, pp: str_break_free(interp, it, pp))
         return cache[key]
-    if getattr(interp, 'model_strings_break_free', False) and _syntactic_break_free(p):
+    if getattr(interp, 'model_strings_break_free', False) and _syntactic_break_free(p, interp.break_free_syms):
         return True
     key = p.get_id()
     cache = path.__dict__.setdefault('_bf', {})
@@ -1469,10 +1515,8 @@ LIST_METHODS = {'append': _l_append, 'extend': _l_extend, 'pop': _l_pop, 'insert
 def _set_add(interp, path, args, kw):
     s, x = args
     interp.journal_write(path, s, ('add', x))
-    if s.sym is None and (isinstance(x, (str, int, bool, EnumV)) or x is None):
-        keys = {interp._concrete_key(y) for y in s.concrete}
-        if interp._concrete_key(x) not in keys:
-            s.concrete.append(x)
+    if s.sym is None and (isinstance(x, (str, int, bool, EnumV, StrT)) or x is None):
+        interp.set_add(s, x, path)
         return
     if isinstance(x, (str, StrT)):
         s.sym = z3.SetAdd(interp.set_z3(s), to_zstr(x))
@@ -1546,7 +1590,8 @@ def _d_update(interp, path, args, kw):
         raise Unsupported('dict.update with non-dict')
     interp.journal_write(path, d, ('update', None))
     if d.dom is None and o.dom is None:
-        d.concrete.update(o.concrete)
+        for k, v in o.concrete.items():
+            do_setitem(interp, d, k, v, path)
         return
     if d.dom is None:
         if d.concrete:
